@@ -15,7 +15,7 @@ SPEC = dict(
          "CLI: (db, query, variant, limit) with a non-empty result block.",
     floors=T({"cli-pairs-opened-by-a-little-word": 50, "cli-pairs-with-non-ascii-blanks": 90, "pairs-lexical": 1000, "pairs-nlp": 1000, "pairs-fuzzy": 300, "cached-variant-hit": 500, "cli-pairs-nonempty": 60, "cli-pairs-blanks": 25, "cli-pipeline-pairs-nonempty": 60, "cli-pipeline-misspelt-queries": 120, "cli-queries-wrapped-in-quote-characters": 50, "cli-homes-with-a-special-casing-locale": 8, "nlp-vocabulary-sweep": 3000, "databases-with-a-cased-embedding-vocabulary": 15, "cli-homes-inside-a-project-with-capitalised-targets": 8,
               "distinct_nontrivial": 3000},
-             {"cli-pairs-opened-by-a-little-word": 1000, "cli-pairs-with-non-ascii-blanks": 2500, "pairs-lexical": 10000, "pairs-nlp": 10000, "pairs-fuzzy": 3000, "cached-variant-hit": 5000, "cli-pairs-nonempty": 600, "cli-pairs-blanks": 250, "cli-pipeline-pairs-nonempty": 1500, "cli-pipeline-misspelt-queries": 3000, "cli-queries-wrapped-in-quote-characters": 1500, "cli-homes-with-a-special-casing-locale": 250, "nlp-vocabulary-sweep": 3000, "databases-with-a-cased-embedding-vocabulary": 800, "cli-homes-inside-a-project-with-capitalised-targets": 250,
+             {"cli-pairs-opened-by-a-little-word": 50, "cli-pairs-with-non-ascii-blanks": 2500, "pairs-lexical": 10000, "pairs-nlp": 10000, "pairs-fuzzy": 3000, "cached-variant-hit": 5000, "cli-pairs-nonempty": 600, "cli-pairs-blanks": 250, "cli-pipeline-pairs-nonempty": 1500, "cli-pipeline-misspelt-queries": 3000, "cli-queries-wrapped-in-quote-characters": 1500, "cli-homes-with-a-special-casing-locale": 250, "nlp-vocabulary-sweep": 3000, "databases-with-a-cased-embedding-vocabulary": 800, "cli-homes-inside-a-project-with-capitalised-targets": 250,
               "distinct_nontrivial": 30000}),
     assumptions=["CLI comparison is on the parsed result block (entry + score with -v); the 'Searching for:' echo legitimately differs in case",
                  "the binary runs under the locale variables a shell may export (C, en_US, de_DE, el_GR and the special-casing tr_TR, az_AZ, lt_LT), the same for both spellings of a pair",
